@@ -384,7 +384,15 @@ pub fn strategies(c: &Concrete, absent_dc: &str, fam: &Family) -> Vec<Strat> {
 // building the real thing
 
 thread_local! {
-    static RT: tokio::runtime::Runtime = tokio::runtime::Builder::new_current_thread().max_blocking_threads(1).build().expect("tokio runtime");
+    static RT: tokio::runtime::Runtime = tokio::runtime::Builder::new_current_thread().enable_time().max_blocking_threads(1).build().expect("tokio runtime");
+}
+
+/// Run `f` inside this thread's runtime context (for constructors that `tokio::spawn`).
+pub fn in_runtime_context<R>(f: impl FnOnce() -> R) -> R {
+    RT.with(|rt| {
+        let _g = rt.enter();
+        f()
+    })
 }
 
 /// The production `ClusterState::new` (hook H-CLUSTER) on this thread's private runtime.
